@@ -606,7 +606,7 @@ func loadSpecs(repo, verifDir string) (*Specs, error) {
 		GhostFld: map[string][2]string{}, GhostVar: map[string]string{}, SpecFuns: map[string]*SpecFun{}, PropFuncs: map[string][]string{}}
 	files, _ := filepath.Glob(filepath.Join(repo, "contracts_verif*.go"))
 	sp.Source = "repo"
-	if len(files) == 0 {
+	if len(files) == 0 || os.Getenv("KVC_CONTRACTS") == "mirror" {
 		files, _ = filepath.Glob(filepath.Join(verifDir, "contracts", "contracts_verif*.go"))
 		sp.Source = "mirror"
 	}
@@ -731,6 +731,10 @@ func (sp *Specs) parseFile(path string) error {
 			key, ps, rs, tail, err := parseSig(rest)
 			if err != nil {
 				return errf("%v", err)
+			}
+			if kw == "iface" && strings.HasPrefix(key, "(") {
+				// iface (s Storage) Get(...)  ->  key "Storage.Get", first parameter = the receiver
+				key = strings.Replace(strings.TrimPrefix(key, "("), ").", ".", 1)
 			}
 			cur = &FuncSpec{Key: key, Kind: kw, Params: ps, Results: rs, Loops: map[int]*LoopSpec{}, File: base, Line: l.no}
 			curLoop = nil
